@@ -364,7 +364,12 @@ func (m *Multi) Subseq(start, end int) (*Multi, error) {
 	var ns []seq.Sequence
 
 	for _, r := range m.Seq {
-		rs := reflect.New(reflect.TypeOf(r)).Interface().(sequtils.Sliceable)
+		// The new row starts as a copy of the row so that it keeps the
+		// row's annotation; Truncate then gives it its own letters.
+		rs, ok := r.Clone().(sequtils.Sliceable)
+		if !ok {
+			return nil, fmt.Errorf("multi: cannot take subsequence of %T", r)
+		}
 		err := sequtils.Truncate(rs, r, start, end)
 		if err != nil {
 			return nil, err
